@@ -629,6 +629,34 @@ fn build_lookup(seed: u64) -> String {
             }
         }
     }
+    // every version, generated attributes, and a caller-supplied "(attributes)" entry among the files (re-packing the listing of
+    // an existing archive): the generated special file replaces it and every other name still resolves to its own content
+    {
+        use wow_mpq::{AttributesOption, FormatVersion};
+        let user: Vec<(&str, Vec<u8>)> = vec![("readme.txt", b"hello world".to_vec()), ("data\\one.bin", vec![1u8; 300]), ("data\\two.bin", vec![2u8; 7000]), ("data\\three.bin", (0..5000u32).map(|i| (i % 251) as u8).collect())];
+        for version in [FormatVersion::V1, FormatVersion::V2, FormatVersion::V3, FormatVersion::V4] {
+            for stale_at in [None, Some(0usize), Some(1), Some(3)] {
+                let dir = tempfile::tempdir().unwrap();
+                let path = dir.path().join("g.mpq");
+                let mut b = ArchiveBuilder::new().version(version).listfile_option(ListfileOption::Generate).attributes_option(AttributesOption::GenerateCrc32);
+                for (i, (name, data)) in user.iter().enumerate() {
+                    if stale_at == Some(i) { b = b.add_file_data(vec![0xEE; 24], "(attributes)"); }
+                    b = b.add_file_data(data.clone(), name);
+                }
+                let desc = format!("{:?} archive, generated CRC32 attributes, 4 user files, caller-supplied (attributes) entry before file {:?}", version, stale_at);
+                if b.build(&path).is_err() { continue; }   // a reported error is allowed
+                tried += 1;
+                let mut a = match Archive::open(&path) { Ok(a) => a, Err(e) => return fail("build_lookup", desc, format!("open Err({})", e), "Ok".into()) };
+                for (name, data) in &user {
+                    match a.read_file(name) {
+                        Ok(got) if got == *data => {}
+                        Ok(got) => return fail("build_lookup", desc, format!("read_file({}) returns {} other bytes", name, got.len()), format!("the {} added bytes", data.len())),
+                        Err(e) => return fail("build_lookup", desc, format!("read_file({}) Err({})", name, e), "the added bytes".into()),
+                    }
+                }
+            }
+        }
+    }
     // F1 (repaired): a multi-sector file stored without compression reads back bit-identically
     let f1 = f1_stored_multisector();
     if f1.contains("\"failing_input\":\"") { return f1.replace("f1_stored_multisector", "build_lookup"); }
